@@ -35,6 +35,10 @@ type c01Case struct {
 	Lookup   bool      `json:"lookup"`
 	BMCPat   int       `json:"bmcpat"` // randoms/GUID pattern 0..3
 	SIDSel   int       `json:"sidsel"` // 0..3
+	// Reuse: the caller first opens (and closes) a session to another BMC with
+	// the same options value, differing only in the password; the library
+	// documents that it does not modify the options
+	Reuse bool `json:"reuse,omitempty"`
 }
 
 var c01SIDs = []uint32{1, 0x11223344, 0xFFFFFFFF, 0x00000100}
@@ -91,6 +95,18 @@ func c01One(c c01Case, r *rep.R) (string, string) {
 	}
 	if c.Discover == 0 {
 		opts.CipherSuites = []ipmi.CipherSuite{suiteOf(c.Suite)}
+	}
+	if c.Reuse {
+		cfg0 := defaultConfig()
+		cfg0.Password = pattern(c.PLen+1, 0x51, 1)[:min(20, c.PLen+1)]
+		cfg0.KG = cfg.KG
+		w0 := newWorld(cfg0, nil, nil)
+		opts.Password = cfg0.Password
+		if s0, err := w0.Conn.NewV2Session(w0.Ctx, opts); err == nil {
+			s0.Close(w0.Ctx)
+		}
+		opts.Password = cfg.Password
+		w = newWorld(cfg, nil, nil)
 	}
 	none := isNoneSuite(c.Suite)
 	var sess *bmc.V2Session
@@ -265,6 +281,16 @@ func runC01(r *rep.R) {
 					c := base
 					c.BMCPat, c.SIDSel, c.KG = pat, sid, kg
 					do(c)
+				}
+			}
+		}
+	}
+	// the same options value used for two BMCs with different passwords
+	for _, s := range suites {
+		for _, kg := range []bool{false, true} {
+			for _, pl := range []int{0, 7, 19} {
+				for _, lk := range []bool{false, true} {
+					do(c01Case{Suite: s, ULen: 4, PLen: pl, KG: kg, Priv: 3, Lookup: lk, BMCPat: 3, SIDSel: 1, Reuse: true})
 				}
 			}
 		}
